@@ -250,6 +250,26 @@ class C12(BlockBase):
             outer.children = [ln() for _ in range(rng.randint(0, 2))] + [inner] + [ln() for _ in range(rng.randint(0, 2))]
             items = [gen.Line("head#0"), outer, gen.Line("tail#0")]
             yield self.mk_items(items, gen.Spelling(), rng.random() < 0.8, "nested-ragged")
+        # white space outside ASCII (ideographic space, no-break space, em space, vertical tab, form feed) right behind the
+        # indentation of inner lines - the first inner line in particular: it is text, not indentation
+        for i in range(quick(tier, 1200, 30000)):
+            g = gen.DocGen(rng, depth=rng.choice([1, 2]), p_unwrap=0.8, unique=True, p_ready=0.9, p_skip=0.0, max_items=3)
+            items = g.doc()
+            if items and isinstance(items[0], gen.El):
+                items.insert(0, gen.Line("head#0"))
+            for e in gen.all_elements(items):
+                if not e.unwrap:
+                    continue
+                lines = [ch for ch in e.children if isinstance(ch, gen.Line) and ch.inline is None and ch.text and ch.text.strip(" \t")]
+                for k, ch in enumerate(lines):
+                    body = ch.text.lstrip(" \t")
+                    lead = ch.text[:len(ch.text) - len(body)]
+                    if k == 0 or rng.random() < 0.3:
+                        body = rng.choice(["\u3000", "\u00a0", "\u2003", "\x0b", "\x0c", "\u3000\u3000 "]) + body
+                    if k > 0 and rng.random() < 0.6:
+                        lead = lead + g.unit * rng.choice([1, 2])
+                    ch.text = lead + body
+            yield self.mk_items(items, gen.Spelling(), rng.random() < 0.8, "unicode-space-indent")
 
     def first_line_unwrap(self, lay):
         """the opening tag of an unwrapped ready element is on line 1, or on line 2 after an empty line 1
@@ -902,6 +922,19 @@ class C18(Base):
             spa = gen.Spelling(pairs[a][0], pairs[a][1], na[0], na[1])
             spb = gen.Spelling(pairs[b][0], pairs[b][1], nb[0], nb[1])
             yield self.mk_pair(items, spa, spb, rng.random() < 0.7, "ast-pair")
+        # delimiter pairs one of which is much longer than the other, with short tag names: a whole tag (the closing
+        # tag in particular) can be shorter than the longer delimiter (last, so that the pairs above stay what they were)
+        lop = [("// <", ">"), ("<!-- chiritori:", ">"), ("<", "> ----------"), ("<!-- <", ">"), ("<", "/>"), ("[[[[[[[[", "]")]
+        short = [("t", "r"), ("T", "R"), ("tl", "rm")]
+        for i in range(quick(tier, 300, 8000)):
+            g = gen.DocGen(rng, depth=rng.choice([1, 2, 3]), p_inline=0.2, unique=True)
+            items = g.doc()
+            da = lop[i % len(lop)]
+            db = rng.choice(lop + [("<", ">"), ("[[", "]]")])
+            na = rng.choice(short)
+            nb = rng.choice(short + gen.TAG_NAMES[:2])
+            yield self.mk_pair(items, gen.Spelling(da[0], da[1], na[0], na[1]), gen.Spelling(db[0], db[1], nb[0], nb[1]),
+                               rng.random() < 0.7, "lopsided-pair")
 
     def oracle(self, case, impl, spec):
         vals = []
@@ -1275,6 +1308,16 @@ class C20(Base):
                      "off": self.DEF["off"], "now": gen.NOW, "flags": [], "file": None, "file_style": "lf",
                      "mode": mode, "list_flag_both": False, "json": js}
                 yield self.mk_case(m, "cli-empty-document")
+        # option values that are empty or blank: they are values like any other, not requests for the default
+        body = ("keep();\n" + self.DEF["ds"] + "time-limited to='2000-01-01 00:00:00'" + self.DEF["de"] + "\nold();\n" + self.DEF["ds"] + "/time-limited" + self.DEF["de"] + "\n"
+                + self.DEF["ds"] + "removal-marker name='a'" + self.DEF["de"] + "\ngone();\n" + self.DEF["ds"] + "/removal-marker" + self.DEF["de"] + "\n"
+                + self.DEF["ds"] + " to='2000-01-01 00:00:00' name='a'" + self.DEF["de"] + "\nnameless();\n" + self.DEF["ds"] + "/" + self.DEF["de"] + "\nend();\n")
+        for off in ["", " ", "+00:00 ", "Z", "+0000"]:
+            for tl, rm in [(self.DEF["tl"], self.DEF["rm"]), ("", self.DEF["rm"]), (self.DEF["tl"], ""), (" ", " ")]:
+                for mode, js in [("clean", False), ("list_all", True)]:
+                    m = {"src": body, "ds": self.DEF["ds"], "de": self.DEF["de"], "tl": tl, "rm": rm, "off": off, "now": gen.NOW,
+                         "flags": ["a"], "file": None, "file_style": "lf", "mode": mode, "list_flag_both": False, "json": js}
+                    yield self.mk_case(m, "cli-empty-option")
 
     def run_binary(self, m, route_in, route_out, tz):
         import datetime
